@@ -125,6 +125,8 @@ pub fn decode_plan(c: &mut Cur) -> Plan {
         path_noise: if c.pick(4) == 0 { c.u8() } else { 0 },
         version: [11u8, 10, 2, 3, 9][c.pick(5)],
         plus_literal: false,
+        absolute_form: if c.pick(8) == 0 { 1 + c.pick(3) as u8 } else { 0 },
+        query_tail: if c.pick(4) == 0 { c.u8() & 3 } else { 0 },
     };
     let style = TsStyle {
         extended: c.bool(),
@@ -186,8 +188,10 @@ pub fn decode_plan(c: &mut Cur) -> Plan {
 
 fn decode_mutation(c: &mut Cur) -> c01::Mutation {
     use c01::Mutation::*;
-    match c.pick(32) {
+    match c.pick(34) {
         31 => TimestampLeapSecond(c.bool()),
+        32 => HostPort(c.u8()),
+        33 => HeaderSuffix(c.u16(), c.u8()),
         0 => Method(c.u16()),
         1 => UriChar(c.u16(), c.u16()),
         2 => UriInsert(c.u16(), c.u16()),
